@@ -122,7 +122,47 @@ def teardown_spawns(rng, n):
     return out
 
 
+def float_tills(ctx, n):
+    """`run(..., start=s, till=T)` with clock readings that are inexact in binary floating point: the deadline is the DATE T,
+    not start + (T - start) - work due one unit in the last place before T runs, work due one unit after T never does, and
+    no event carries a time later than T"""
+    import math
+    import usim
+    from usim import time
+    rng = ctx.rng
+    for _ in range(n):
+        while True:
+            start = rng.randrange(0, 60) / 10
+            T = round(start + rng.randrange(2, 40) / 10, 1)
+            # (half of the cases: pairs for which the relative detour start + (T - start) misses T in float arithmetic)
+            if start + (T - start) < T or (start + (T - start) != T and rng.random() < 0.3) or rng.random() < 0.1:
+                break
+        before, after = math.nextafter(T, -math.inf), math.nextafter(T, math.inf)
+        case = {'float_till': dict(start=start, till=T)}
+        log = []
+
+        async def waiter(tag, date):
+            await (time >= date)
+            log.append((tag, time.now))
+
+        async def sleeper(tag, delay):
+            await (time + delay)
+            log.append((tag, time.now))
+        try:
+            usim.run(waiter('before', before), waiter('after', after), sleeper('half', (T - start) / 2), start=start, till=T)
+        except BaseException as e:   # noqa
+            ctx.fail(case, 'raised %r' % (e,), family='float-tills')
+            continue
+        ctx.count(case, nontrivial=True)
+        ctx.bump('family:float-tills')
+        want = sorted([('half', start + (T - start) / 2), ('before', before)], key=lambda x: x[1])
+        if log != want:
+            ctx.fail(case, 'run(start=%r, till=%r): observed %r, expected %r (the last date before the deadline is reached, '
+                     'the first one after it is not)' % (start, T, log, want), family='float-tills')
+
+
 def run(ctx):
+    float_tills(ctx, ctx.n(60, 600))
     machine_prop.run(ctx, FAMILIES, MONITORS + ['C04'], extra_scenarios=flag_untils(ctx.rng, ctx.n(60, 1200)))
     precreated_conditions(ctx, ctx.n(30, 400))
     # until-blocks on condition objects that an earlier / nested simulation has used already (family of C01)
